@@ -1133,6 +1133,56 @@ func TestGocvReplay(t *testing.T) {
 		"(*kmip.PrivateKey).RSA", "(*kmip.PrivateKey).ECDSA", "(*kmip.PrivateKey).CryptoPrivateKey", "(*kmip.PrivateKey).Pkcs8Pem"} {
 		replayers[fn] = replayers["scenario:C14"]
 	}
+	// connection faults, sequential part (C11)
+	replayers["scenario:C11"] = &Replayer{PkgDir: "kmipclient", Oracle: "a client whose (re)connection failed can still be closed without panic and its calls fail; a call over connections that all end with EOF dials at most 4 times and returns an error",
+		Template: `package kmipclient
+
+import (
+	"context"
+	"errors"
+	"net"
+	"sync"
+	"testing"
+
+	"github.com/ovh/kmip-go"
+	"github.com/ovh/kmip-go/payloads"
+)
+
+func TestGocvReplay(t *testing.T) {
+	msg := kmip.NewRequestMessage(kmip.V1_4, &payloads.ActivateRequestPayload{UniqueIdentifier: "x"})
+	{
+		c := &Client{lock: new(sync.Mutex), dialer: func(ctx context.Context) (net.Conn, error) { return nil, errors.New("server down") }}
+		if _, err := c.Roundtrip(context.Background(), &msg); err == nil {
+			t.Fatalf("GOCV-REPRODUCED: {{.Obligation}}: call succeeded without a connection")
+		}
+		func() {
+			defer func() {
+				if p := recover(); p != nil {
+					t.Fatalf("GOCV-REPRODUCED: {{.Obligation}}: Close after a failed (re)connection panics: %v", p)
+				}
+			}()
+			_ = c.Close()
+		}()
+	}
+	{
+		dials := 0
+		c := &Client{lock: new(sync.Mutex), dialer: func(ctx context.Context) (net.Conn, error) {
+			dials++
+			a, b := net.Pipe()
+			go func() { buf := make([]byte, 4096); b.Read(buf); b.Close() }()
+			return a, nil
+		}}
+		_, err := c.Roundtrip(context.Background(), &msg)
+		if err == nil || dials > 4 {
+			t.Fatalf("GOCV-REPRODUCED: {{.Obligation}}: server closing after each request: err=%v after %d dials (at most 4 transmissions expected)", err, dials)
+		}
+		_ = c.Close()
+	}
+}
+`}
+	replayers["(*kmipclient.Client).Close"] = replayers["scenario:C11"]
+	replayers["(*kmipclient.Client).doRountrip"] = replayers["scenario:C11"]
+	replayers["(*kmipclient.Client).reconnect"] = replayers["scenario:C11"]
 	replayers["ttlv.bytesToBigInt"] = &Replayer{PkgDir: "ttlv", Inputs: []ReplayInput{{Name: "V", Expr: "v", Kind: "bytes"}},
 		Oracle: "bytesToBigInt on the model's bytes returns normally and leaves its argument unchanged",
 		Template: strings.Replace(replayPrelude, "{{.Pkg}}", "ttlv", 1) + `
